@@ -45,11 +45,12 @@ DSBL_WARMSTART = None
 
 
 def _init_enums():
-    global DSBL_WARMSTART
+    global DSBL_WARMSTART, SENS_E_KINETIC
     if DSBL_WARMSTART is None:
         from .. import introspect_tree
-        en = dict(introspect_tree.load("enums").ENUMS["mjtDisableBit"].values)
-        DSBL_WARMSTART = en["mjDSBL_WARMSTART"]
+        enums = introspect_tree.load("enums").ENUMS
+        DSBL_WARMSTART = dict(enums["mjtDisableBit"].values)["mjDSBL_WARMSTART"]
+        SENS_E_KINETIC = dict(enums["mjtSensor"].values)["mjSENS_E_KINETIC"]
 
 
 def _pat(n, k, scale):
@@ -111,7 +112,7 @@ def new_state(fac, inp, q, v):
 LAZY_FLAGS = ("flg_energypos", "flg_energyvel", "flg_subtreevel", "flg_rnepost")
 
 
-def skip_diff(lib, cmp, m, d1, d2, ss):
+def skip_diff(lib, cmp, m, d1, d2, ss, energy_flag=1):
     """Differing fields between the skip run d1 and the full run d2.  With skipsensor=1 the lazy-evaluation flags are
     bookkeeping that may legitimately differ (the full run clears 'subtree velocities valid' and nobody recomputes them; the
     skip run keeps the still valid flag): they are ignored at first, then the position- and velocity-stage sensors are
@@ -119,13 +120,37 @@ def skip_diff(lib, cmp, m, d1, d2, ss):
     so a flag that survived although its data are stale still shows up in sensordata / subtree_* / energy."""
     if not ss:
         return cmp.diff(m, d1, d2)
-    dl = cmp.diff(m, d1, d2, ignore=LAZY_FLAGS)
+    # energy flag disabled and no sensor evaluated: mjData.energy is not an output (doc, option/flag/energy: computed when
+    # the flag is enabled or as a by-product of energy sensors); the full call zeroes it, the skip call keeps the cache
+    ign = LAZY_FLAGS if energy_flag else LAZY_FLAGS + ("energy",)
+    dl = cmp.diff(m, d1, d2, ignore=ign)
     if dl:
         return dl
     for d in (d1, d2):
         lib.mj_sensorPos(m, d)
         lib.mj_sensorVel(m, d)
     return cmp.diff(m, d1, d2, ignore=("flg_energypos", "flg_energyvel"))
+
+
+K_EKIN = "e_kinetic sensor is computed in the position stage (not refreshed by the velocity stage; reads a stale flg_energyvel)"
+SENS_E_KINETIC = None
+
+
+def only_ekin(m, d1, d2, fields):
+    """True iff the only differences are the e_kinetic sensor's data (and the kinetic-energy cache energy[1])."""
+    if not set(fields) <= {"sensordata", "energy"} or "sensordata" not in fields:
+        return False
+    a = np.array(d1.sensordata).view(np.uint64)
+    b = np.array(d2.sensordata).view(np.uint64)
+    adr = np.array(m.sensor_adr)
+    types = np.array(m.sensor_type)
+    for i in np.nonzero(a != b)[0]:
+        s = int(np.searchsorted(adr, i, side="right") - 1)
+        if int(types[s]) != SENS_E_KINETIC:
+            return False
+    if "energy" in fields and np.array(d1.energy)[:1].tobytes() != np.array(d2.energy)[:1].tobytes():
+        return False
+    return True
 
 
 def check_model(lib, part, job):
@@ -198,8 +223,12 @@ def check_model(lib, part, job):
                                        if (si == 0 and e == (1, 2, 1) and var == 0 and sname == "POS") else None)
                             if stage and (any(e) or var):
                                 part["nontrivial_count"] += 1
-                            dl = skip_diff(lib, cmp, m, d1, d2, ss)
-                            if dl:
+                            dl = skip_diff(lib, cmp, m, d1, d2, ss, energy)
+                            if dl and only_ekin(m, d1, d2, dl):
+                                part.violation(K_EKIN, "B forwardSkip(%s,%d) after an identical mj_forward and edits %s%s: the e_kinetic "
+                                               "sensor differs from the full call [%s]" % (sname, ss, e, " + qvel" if var else "", tag),
+                                               dict(base, oracle="B", stage=sname, skipsensor=ss, edit=e, variant=var, **rep0))
+                            elif dl:
                                 viol("B forwardSkip(%s,%d) vs full" % (sname, ss), dl,
                                      "after an identical mj_forward and edits %s%s" % (e, " + qvel" if var else ""),
                                      stage=sname, skipsensor=ss, edit=e, variant=var, **rep0)
@@ -234,8 +263,12 @@ def check_model(lib, part, job):
                                 part.count(1)
                                 if stage and (ai or xi or var):
                                     part["nontrivial_count"] += 1
-                                dl = skip_diff(lib, cmp, m, d1, d2, ss)
-                                if dl:
+                                dl = skip_diff(lib, cmp, m, d1, d2, ss, energy)
+                                if dl and only_ekin(m, d1, d2, dl):
+                                    part.violation(K_EKIN, "C inverseSkip(%s,%d) after an identical mj_inverse with qvel changed: the "
+                                                   "e_kinetic sensor differs from the full call [%s]" % (sname, ss, tag),
+                                                   dict(base, oracle="C", stage=sname, skipsensor=ss, variant=var, **rep0))
+                                elif dl:
                                     viol("C inverseSkip(%s,%d) vs full" % (sname, ss), dl,
                                          "after an identical mj_inverse and edits qacc#%d xfrc#%d%s" % (ai, xi, " + qvel" if var else ""),
                                          stage=sname, skipsensor=ss, qacc=ai, xfrc=xi, variant=var, **rep0)
